@@ -379,6 +379,28 @@ pub fn family(name: &str, _tier: Tier) -> Vec<Prog> {
             .chain(grammar(&full_menu(), 1, 1))
             .flat_map(sinks_plus_one)
             .collect(),
+        // thorough only: three derived nodes under restricted menus
+        "c01/grammar3-maps" => {
+            let menu = Menu {
+                map_fns: vec![F1::Inc],
+                map2_fns: vec![F2::Mix],
+                map_ref: true,
+                bind_rhs: vec![],
+                ..Menu::core()
+            };
+            grammar(&menu, 2, 3).into_iter().chain(grammar(&menu, 1, 3)).map(core_alpha).collect()
+        }
+        "c01/grammar3-binds" => {
+            let menu = Menu {
+                map_fns: vec![F1::Inc],
+                map2_fns: vec![],
+                bind_rhs: vec!["E", "F"],
+                ..Menu::core()
+            };
+            grammar(&menu, 1, 3).into_iter().filter(representative).map(core_alpha).collect()
+        }
+        "shapes/binds" => bind_shapes(),
+        "c03/nested" => nested_shapes(),
         "c03/inner" => bind_programs().into_iter().flat_map(pin_binds).collect(),
         "c03/stale_rhs" => stale_rhs_programs(),
         "c05/clones" => catalogue()
@@ -411,6 +433,59 @@ pub fn family(name: &str, _tier: Tier) -> Vec<Prog> {
             })
             .collect(),
         "c09/subs" => subscription_programs(),
+        // a reduced alphabet on one shared node, so that subscribe / unsubscribe before the first
+        // stabilise followed by two rounds of changes (8 actions) is within reach
+        "c10/focus" => {
+            let mut out = vec![];
+            for (cut, vals) in [(Cut::Default, vec![0, 2]), (Cut::Never, vec![0, 2]), (Cut::Default, vec![0, 1, 2])] {
+                for state_unsub in [false, true] {
+                    let mut p = Prog::new(vec![var(0), map(F1::Half, 0).cut(cut)]);
+                    p.alpha.observable = vec![1];
+                    p.alpha.values = vals.clone();
+                    p.alpha.max_observers = 2;
+                    p.alpha.max_subs = 2;
+                    p.alpha.subscribe = true;
+                    p.alpha.unsubscribe = !state_unsub;
+                    p.alpha.state_unsubscribe = state_unsub;
+                    p.alpha.disallow = false;
+                    out.push(p);
+                }
+            }
+            out
+        }
+        // node 2 is a twin of node 1 (same recipe); only node 1 is offered for observation, the
+        // differential driver moves the *other* observers to the twin in the counterfactual run
+        "c10/differential" => {
+            let mut out = vec![];
+            for (cut, vals) in [(Cut::Default, vec![0, 2]), (Cut::Never, vec![0, 2]), (Cut::Default, vec![0, 1, 2])] {
+                for state_unsub in [false, true] {
+                    for clone_obs in [false, true] {
+                        let mut p = Prog::new(vec![var(0), map(F1::Half, 0).cut(cut), map(F1::Half, 0).cut(cut)]);
+                        p.alpha.observable = vec![1];
+                        p.alpha.values = vals.clone();
+                        p.alpha.max_observers = 2;
+                        p.alpha.max_subs = 2;
+                        p.alpha.subscribe = true;
+                        p.alpha.unsubscribe = !state_unsub;
+                        p.alpha.state_unsubscribe = state_unsub;
+                        p.alpha.clone_obs = clone_obs;
+                        p.alpha.disallow = clone_obs;
+                        out.push(p);
+                    }
+                }
+            }
+            out
+        }
+        "c09/self_unsub" => subscription_programs()
+            .into_iter()
+            .map(|p| {
+                with_alpha(p, |a| {
+                    a.handler_self_unsub = true;
+                    a.state_unsubscribe = false;
+                    a.clone_obs = false;
+                })
+            })
+            .collect(),
         "c11/on_update" => catalogue()
             .into_iter()
             .map(|(_, p)| p)
@@ -654,4 +729,80 @@ fn representative(p: &Prog) -> bool {
         Recipe::Bind { even, odd, .. } => format!("{even:?}") < format!("{odd:?}"),
         _ => true,
     })
+}
+
+/// Bind-centred shapes of 7-9 nodes that the grammar cannot reach: a bind over a var that has a
+/// sibling dependant, whose alternatives are pre-existing nodes at different depths of a chain
+/// over another var (or fresh nodes over them), optionally a second bind that selects the first
+/// one or an otherwise unneeded node, and a logged consumer on top.
+///   0:v0 1:v1 2:v2 3:x1=inc(v1) 4:x2=inc(x1) 5:s=inc(v0) 6:B1 [7:B2] top:D=inc(last bind)
+pub fn bind_shapes() -> Vec<Prog> {
+    use Rhs::*;
+    let b1_alts: Vec<(Rhs, Rhs)> = vec![
+        (E(4), E(1)),
+        (E(4), E(3)),
+        (E(4), F(4)),
+        (E(3), F(3)),
+        (F(4), F(4)),
+        (E(4), E(2)),
+        (E(1), E(4)),
+    ];
+    let mut out = vec![];
+    for (e, o) in b1_alts {
+        let base = vec![var(0), var(1), var(0), map(F1::Inc, 1), map(F1::Inc, 3), map(F1::Inc, 0), bind(0, e.clone(), o.clone())];
+        // no second bind
+        let mut nodes = base.clone();
+        nodes.push(map(F1::Inc, 6));
+        out.push((nodes, vec![5u8, 7, 4]));
+        // a second bind on an independent var selecting the first bind or another node
+        for (e2, o2) in [(E(6), E(3)), (E(3), E(6)), (E(6), F(3)), (E(6), E(5))] {
+            let mut nodes = base.clone();
+            nodes.push(bind(2, e2, o2));
+            nodes.push(map(F1::Inc, 7));
+            out.push((nodes, vec![5u8, 8, 4]));
+        }
+        // a second bind whose input is the first bind
+        let mut nodes = base.clone();
+        nodes.push(bind(6, F(3), E(4)));
+        nodes.push(map(F1::Inc, 7));
+        out.push((nodes, vec![5u8, 8, 4]));
+    }
+    out.into_iter()
+        .map(|(nodes, observable)| {
+            let mut p = Prog::new(nodes);
+            p.alpha.observable = observable;
+            p.alpha.max_observers = 2;
+            p.alpha.values = vec![0, 1];
+            p.alpha.disallow = false;
+            p
+        })
+        .collect()
+}
+
+/// Nested binds whose innermost nodes are observable (through the pinned outer bind).
+pub fn nested_shapes() -> Vec<Prog> {
+    use Rhs::*;
+    let mk = |nodes: Vec<NodeSpec>, pin: u8| {
+        let mut p = Prog::new(nodes);
+        p.pinned = vec![pin];
+        p.alpha.observe_inner = true;
+        p.alpha.observable = vec![pin];
+        p.alpha.subscribe = true;
+        p.alpha.max_subs = 1;
+        p.alpha.max_observers = 1;
+        p.alpha.disallow = false;
+        p.alpha.values = vec![0, 1, 2];
+        p
+    };
+    let nb = |l: u8, e: Rhs, o: Rhs| NB(l, Box::new(e), Box::new(o));
+    vec![
+        // outer on v0, inner on v1, innermost map over v2
+        mk(vec![var(0), var(1), var(2), bind(0, nb(1, F(2), F(2)), nb(1, F(2), E(2)))], 3),
+        mk(vec![var(0), var(1), var(2), bind(0, nb(1, F(2), FC), F(2))], 3),
+        mk(vec![var(0), var(1), var(2), bind(0, nb(1, FF(2), F(2)), nb(1, F(2), FF(2)))], 3),
+        // inner bind on the same var as the outer one
+        mk(vec![var(0), var(2), bind(0, nb(0, F(1), F(1)), nb(0, F(1), F(1)))], 2),
+        // inner bind whose input is a map over the outer bind's input
+        mk(vec![var(0), var(2), map(F1::Half, 0), bind(0, nb(2, F(1), F(1)), nb(2, F(1), E(1)))], 3),
+    ]
 }
